@@ -42,6 +42,7 @@ SIMMPI_SRC = ["simmpi/simmpi.cpp"]
 TARGETS = {
     "c17_fence":  ("nompi", ["harness/c17_fence.cpp"], False),
     "c17_asm":    ("nompi", ["harness/c17_asm.cpp"], False),
+    "c17_iso":    ("nompi", ["harness/c17_iso.cpp"], False),
     "simmpi_selftest": ("mpi", ["harness/simmpi_selftest.cpp"], True),
     "race_selftest": ("nompi", ["harness/race_selftest.cpp"], False),
     "c12_domain": ("mpi", ["harness/c12_domain.cpp"], True),
@@ -63,7 +64,7 @@ TARGETS = {
 }
 GUARD_TARGETS = ["c11_mesh.guard", "c11_pmap.guard", "c05_streams.guard"]
 PROPERTY_TARGETS = {
-    "C17": ["c17_fence", "c17_asm", "c17_asm.race"],
+    "C17": ["c17_fence", "c17_asm", "c17_asm.race", "c17_iso", "c17_iso.race"],
     "C12": ["c12_domain"],
     "C13": ["c13_scalar", "c13_app", "c13_app_neumann", "c13_q2", "c13_dg", "c13_blocked", "c13_stokes", "c13_tm", "c13_stokes_crrt", "c13_stokes_mg", "c13_tm.race"],
     "C05": ["c05_streams", "c05_checkpoint", "c05_streams.guard", "c05_meta"],
